@@ -46,6 +46,9 @@ pub enum Kind {
     /// `Db::f_text`): the evaluator logs and skips such answers, whatever the result is it is
     /// this policy's own business
     RouteQueryErrors(u8),
+    /// a filter-set whose IRR object has only the legacy `filter:` attribute, which the evaluator
+    /// does not read
+    LegacyFilterSet,
 }
 
 impl Kind {
@@ -67,6 +70,7 @@ impl Kind {
             Kind::FilterSetChainToUnknown(_) => "filter-set-chain-to-unknown-as-set",
             Kind::GoodNamedAfter(..) => "good-named-after-another-policy",
             Kind::RouteQueryErrors(_) => "irr-error-to-route-queries",
+            Kind::LegacyFilterSet => "filter-set-with-legacy-filter-attribute-only",
         }
     }
 }
@@ -147,6 +151,12 @@ pub fn build(policies: &[Kind]) -> (Vec<Stmt>, Db, Vec<Option<Expr>>) {
                 db.f_text = *k;
                 n
             }
+            Kind::LegacyFilterSet => {
+                let n = format!("FLTR-L{i}");
+                db.filter_sets.insert(n.clone(), vec!["AS65001".into()]);
+                db.legacy_filter_sets.insert(n.clone());
+                n
+            }
             Kind::FilterSetChainToUnknown(d) => {
                 let d = (*d).clamp(1, 10) as usize;
                 for k in 1..=d {
@@ -219,6 +229,7 @@ fn kind_strategy() -> impl Strategy<Value = Kind> {
         3 => (m(), m(), 0u8..9).prop_map(|(a, b, j)| Kind::GoodNamedAfter(a, b, j)),
         2 => (1u8..11).prop_map(Kind::FilterSetChainToUnknown),
         2 => (0u8..9).prop_map(Kind::RouteQueryErrors),
+        1 => Just(Kind::LegacyFilterSet),
     ]
 }
 
@@ -232,7 +243,7 @@ impl Prop for C15 {
     }
     fn rule(&self) -> String {
         "2..9 managed policies (some evaluable only through a filter-set, some whose set name extends the text of another policy's expression) of which at least one is valid RPSL but unevaluable (a chain of up to 10 filter-sets ending in an unknown as-set, unknown as-set, \
-         IRR error E/F to the set query, IRR error F (short, or 400 non-ASCII characters at every alignment) to the route queries of an as-set's members, unknown route-set / filter-set, PeerAS, AS-path regular \
+         IRR error E/F to the set query, IRR error F (short, or 400 non-ASCII characters at every alignment) to the route queries of an as-set's members, a filter-set whose object has only the legacy filter: attribute, unknown route-set / filter-set, PeerAS, AS-path regular \
          expression, attribute match, set AND AS-path regexp) at generated positions, run through \
          the agent's real Updater::run with the real evaluator against fake IRRd and fake Junos. \
          Oracle: the run succeeds, a commit is received, and every evaluable policy is installed \
@@ -259,6 +270,7 @@ impl Prop for C15 {
             Kind::AsPathRegex,
             Kind::Community,
             Kind::GoodAndRegex(0b11, 0b1),
+            Kind::LegacyFilterSet,
         ];
         let mut out = Vec::new();
         for b in bad {
